@@ -329,8 +329,30 @@ func (sc *c09Scenario) reload(nonEmpty bool) {
 			pem.Encode(&buf, &pem.Block{Type: "CERTIFICATE", Bytes: c09Root(sel[0]).der})
 		}
 	}
-	err := sc.log.SetRootsFromPEM(context.Background(), buf.Bytes())
 	what := fmt.Sprintf("reload(mask=%b variant=%d)", mask, variant)
+	if !resend && len(sel) > 0 && rapid.IntRange(0, 4).Draw(rt, "rootsUploadFault") == 2 {
+		// the object store refuses the upload of _roots.pem once: the reload fails and changes nothing; the operator
+		// (or the next SIGHUP) then retries with the very same bundle
+		failed := false
+		sc.be.UploadCallback = func(key string, data []byte) (bool, error) {
+			if key == "_roots.pem" && !failed {
+				failed = true
+				return false, errors.New("c09: injected _roots.pem upload failure")
+			}
+			return true, nil
+		}
+		err := sc.log.SetRootsFromPEM(context.Background(), buf.Bytes())
+		sc.be.UploadCallback = nil
+		if failed {
+			sc.rec.Add("reloads-with-failed-roots-upload", 1)
+			if err == nil {
+				rt.Fatalf("%s: the upload of _roots.pem failed but SetRootsFromPEM reported success", what)
+			}
+			sc.checkRoots("after a failed " + what)
+			what = "retried " + what
+		}
+	}
+	err := sc.log.SetRootsFromPEM(context.Background(), buf.Bytes())
 	switch {
 	case resend:
 		if err != nil {
